@@ -267,6 +267,18 @@ type AnonInner struct {
 		W string `@Int`
 	} `@@?`
 }
+// two anonymous struct types that differ only in their grammar tags
+type AnonTwins struct {
+	A struct {
+		Name string `@Ident`
+	} `@@ ";"`
+	B struct {
+		Name string `@Int`
+	} `@@`
+	C []struct {
+		Name string `@Ident @Ident`
+	} `@@*`
+}
 type EmbBase struct {
 	Name string `@Ident`
 }
@@ -308,6 +320,7 @@ func statics() []struct {
 		{"recursive", "RecExpr", mk(func() (fmt.Stringer, error) { return participle.Build[RecExpr](lx) })},
 		{"mutual", "MutX", mk(func() (fmt.Stringer, error) { return participle.Build[MutX](lx) })},
 		{"anonymous", "AnonInner", mk(func() (fmt.Stringer, error) { return participle.Build[AnonInner](lx) })},
+		{"anonymous twins", "AnonTwins", mk(func() (fmt.Stringer, error) { return participle.Build[AnonTwins](lx) })},
 		{"embedded", "EmbRoot", mk(func() (fmt.Stringer, error) { return participle.Build[EmbRoot](lx) })},
 		{"lower-case root", "LowerRoot", mk(func() (fmt.Stringer, error) { return participle.Build[lowerRoot](lx) })},
 		{"quoted", "Quoted", mk(func() (fmt.Stringer, error) { return participle.Build[Quoted](lx) })},
